@@ -34,6 +34,9 @@ const BASES: &[(&str, &str)] = &[
     ("qu?ery", "question"),
     ("dotted", "dot-segment"),
     ("updir", "dotdot-segment"),
+    // directory names may begin or end with a space (the library itself or a directory above it)
+    ("notes ", "trailing-space"),
+    (" archive/notes", "leading-space-parent"),
 ];
 
 impl Check for C14 {
